@@ -801,6 +801,18 @@ func (x *EvalCtx) callExpr(n *ECall) Val {
 		}
 		hi := app("+", xs.Sl.Off, xs.Sl.Len)
 		return Val{T: boolT, S: fmt.Sprintf("(forall ((%s Int)) (! (=> (and (<= %s %s) (< %s %s)) %s) :pattern (%s)))", k, xs.Sl.Off, k, k, hi, body, el.S)}
+	case "headerLine":
+		a, b := x.eval(n.Args[0]), x.eval(n.Args[1])
+		x.s.c.declare("headerLine", "(declare-fun headerLine (Str Str) Bool)")
+		return Val{T: boolT, S: app("headerLine", a.S, b.S)}
+	case "headerValue", "statusCode":
+		a := x.eval(n.Args[0])
+		x.s.c.declare(n.Fn, fmt.Sprintf("(declare-fun %s (Str) Str)", n.Fn))
+		return Val{T: strT, S: app(n.Fn, a.S)}
+	case "isStatusLine":
+		a := x.eval(n.Args[0])
+		x.s.c.declare("isStatusLine", "(declare-fun isStatusLine (Str) Bool)")
+		return Val{T: boolT, S: app("isStatusLine", a.S)}
 	case "repeat":
 		// repeat(s, n): strings.Repeat as a function
 		a, b := x.eval(n.Args[0]), x.eval(n.Args[1])
